@@ -118,7 +118,7 @@ def body_kinds(desc, i: int) -> list:
         return list(EXC_KINDS)
     if 'off' not in sel:
         return ['Exception']
-    return ['Exception', EXC_KINDS[1 + (i + sel['off']) % (len(EXC_KINDS) - 1)]]
+    return ['Exception', EXC_KINDS[1 + (i // sel.get('div', 1) + sel['off']) % (len(EXC_KINDS) - 1)]]
 
 
 def make_oserror(name: str, path: str) -> OSError:
@@ -1484,7 +1484,7 @@ def bsp_cases(n_slices: int, fork_stride: int, errs=None):
                  'slice': [m, n_slices], 'fork': [fork_stride, m % max(fork_stride, 1)] if fork_stride else [0, 0],
                  # the spelling of the file name rotates over the slices (every slice records a full trace)
                  'path_style': BSP_STYLES[m % len(BSP_STYLES)],
-                 'exc': {'all': tier != 'quick', 'off': m},
+                 'exc': {'all': tier != 'quick', 'off': m, 'div': n_slices},
                  'only': None}
             if errs:
                 d['errs'] = errs
